@@ -134,6 +134,18 @@ CLAIMS = {
              "decided; known finding: parameters substituted inside character literals of function-like macro bodies.",
         technique="bounded comparison of the real function with a reference C preprocessor (labelled bounded); structural obligations",
         design="3/C08"),
+    "C10": dict(
+        text="Freshness obligations regenerated from the source: every field assigned from a name lookup (enumerated "
+             "mechanically: find_in_scope / find_in_workspace / climb_type_tree / obj_tree[..] / workspace[..]) is reset or "
+             "unconditionally recomputed by a resolver that the save path runs for every live object; serve_onSave bumps the "
+             "link version and re-resolves includes and links of the whole workspace; the delete path forgets the file and "
+             "re-resolves; update_workspace_file prunes the previous version's keys before adding the new ones; parsing does "
+             "not mutate the server's pp_defs/include_dirs arguments (frame analysis). Histories of sync events compared with "
+             "a freshly started server are the bounded stand-in.",
+        note="Obligations are structural (shape of each resolver) and frame-analytic, not a proof that recomputed values "
+             "equal a fresh server's: that equality is observed only on the bounded histories (24 histories, 9 files).",
+        technique="freshness/frame obligations over the AST and call graph (pyvc mode E); native history replay as bounded stand-in",
+        design="3/C10"),
 }
 
 NOT_APPLICABLE = {
